@@ -9,7 +9,7 @@ REQUIRED = ["kepler_equation", "velocity", "velocity_perihelion", "velocity_aphe
             "passage_nodes_elliptic", "passage_nodes_parabolic", "phase_angle", "illuminated_fraction",
             "iint", "Angle.__init__", "Angle.set", "Angle.reduce_deg", "Angle.rad", "Angle.__rsub__",
             "Epoch.__add__"]
-THEOREMS = ["C11_kepler", "C11_bisection_spec", "C11_halvings", "C11_visviva", "C11_length", "C11_length_switch",
+THEOREMS = ["C11_kepler", "C11_kepler_refuses", "C11_bisection_spec", "C11_halvings", "C11_visviva", "C11_length", "C11_length_switch",
             "C11_phase", "C11_nodes_elliptic", "C11_nodes_parabolic"]
 PROOF_TIMEOUT = {"quick": 1500, "thorough": 3000}
 EXHAUSTIVE = False
@@ -29,6 +29,8 @@ CLAUSES = {
         "proved [ideal, C11_kepler; bound (1+e)*1e-10 rad]; binary64 searched (5e-8 deg)",
     "E lies in the same half revolution as M": "proved [ideal, C11_kepler: sign of E = sign of M reduced to (-180,180]]; binary64 searched",
     "tan(v/2) = sqrt((1+e)/(1-e)) tan(E/2), v in the half revolution of E": "proved [ideal, C11_kepler]; binary64 searched (atan2 form, 1e-9 deg)",
+    "an eccentricity outside [0,1) (e < 0, e >= 1: parabolic/hyperbolic) is refused with ValueError (guard of /repo b141fbd; e = 1.0 used to raise ZeroDivisionError)":
+        "proved [ideal, C11_kepler_refuses]; binary64 searched (e in {1, 1+ulp, 1.5, -ulp, -0.5, 1e300, inf, int 1, int 2, int -1}); e = nan is not refused (both comparisons are false) and runs the loop - outside the property's quantifier",
     "kepler_equation never raises / never runs out of loop fuel for e in [0,1)": "proved [ideal, C11_kepler (result is a pair of Angles), C11_halvings: exactly 34 halvings]",
     "the loop is the bisection of the spec; n-th estimate within 2 d/2^n of the unique root": "proved [spec, C11_bisection_spec; bridge = step/leave equations of the generated fix, inside C11_kepler]",
     "speed at r = a(1-e), a(1+e) equals perihelion/aphelion speed (to the 4e-6 relative disagreement of the literals 42.1218/sqrt2 vs 29.7847)":
@@ -127,7 +129,9 @@ def cases(rng, tier):
            "kepler_equation(0.99, Angle(0.2, radians=True))", "kepler_equation(0, Angle(180.0))",
            "kepler_equation(0.5, Angle(-180.0))", "kepler_equation(0.5, Angle(0.0))", "kepler_equation(0.999999, Angle(1e-9))",
            "kepler_equation(1, Angle(10.0))", "kepler_equation(0.5, 10.0)", "kepler_equation('a', Angle(1.0))",
-           "kepler_equation(1.5, Angle(10.0))", "kepler_equation(-0.5, Angle(100.0))",
+           "kepler_equation(1.5, Angle(10.0))", "kepler_equation(-0.5, Angle(100.0))", "kepler_equation(1.0, Angle(10.0))",
+           "kepler_equation(%s, Angle(10.0))" % fl(math.nextafter(1.0, 0.0)), "kepler_equation(%s, Angle(10.0))" % fl(math.nextafter(1.0, 2.0)),
+           "kepler_equation(-0.0, Angle(10.0))", "kepler_equation(-5e-324, Angle(10.0))", "kepler_equation(2, Angle(10.0))", "kepler_equation(-1, Angle(10.0))",
            "velocity(1.0, 17.9400782)", "velocity(1, 2.0)", "velocity(3.0, 1.0)", "velocity(0.0, 1.0)",
            "velocity_perihelion(0.96727426, 17.9400782)", "velocity_aphelion(0.96727426, 17.9400782)",
            "velocity_perihelion(1.0, 1.0)", "velocity_aphelion(0.5, 0.0)", "velocity_perihelion(0.5, -1.0)",
@@ -199,6 +203,31 @@ def search(rng, tier, deep):
         if min(cdist(Ed, 0.0), cdist(Ed, 180.0)) > 1e-6 and ((Ed % 360.0) < 180.0) != ((vd % 360.0) < 180.0):
             report("kepler-true-anomaly", "kepler_equation(%r, Angle(%r)): v=%r not in the half revolution of E=%r"
                    % (e, M, vd, Ed), [e, M], rep)
+
+    # ---- eccentricities outside [0, 1) are refused with ValueError
+    bad_e = [1.0, math.nextafter(1.0, 2.0), 1.5, 2.0, 1e300, float("inf"), -math.nextafter(0.0, 1.0), -1e-300, -0.5, -1.0,
+             float("-inf"), 1, 2, -1]
+    for e in bad_e:
+        for M in (0.0, 5.0, 180.0, -77.5, gen_M(rng)):
+            stats["evaluations"] += 1
+            rep = "print(kepler_equation(%r, Angle(%s)))" % (e, fl(M)) if not isinstance(e, float) or math.isfinite(e) else \
+                  "print(kepler_equation(float(%r), Angle(%s)))" % (repr(e), fl(M))
+            try:
+                Co.kepler_equation(e, Angle(M))
+                report("kepler-bad-ecc-accepted", "kepler_equation(%r, Angle(%r)) is accepted, eccentricity outside [0,1)" % (e, M), [repr(e), M], rep)
+            except ValueError:
+                pass
+            except Exception as ex:
+                report("kepler-bad-ecc-exception", "kepler_equation(%r, Angle(%r)) raises %s, not ValueError" % (e, M, type(ex).__name__),
+                       [repr(e), M], rep)
+    # the boundary itself: the largest float below 1 and 0.0 (also -0.0) are accepted
+    for e in (math.nextafter(1.0, 0.0), 0.0, -0.0, 0):
+        stats["evaluations"] += 1
+        try:
+            Co.kepler_equation(e, Angle(10.0))
+        except Exception as ex:
+            report("kepler-raises", "kepler_equation(%r, Angle(10.0)) raises %s" % (e, type(ex).__name__), [repr(e), 10.0],
+                   "print(kepler_equation(%r, Angle(10.0)))" % (e,))
 
     # ---- speeds, length
     for _ in range(nk // 4):
